@@ -304,7 +304,7 @@ def grid (buf : Text) : Except Err (Tmpl × Text) :=
   match consumeLit [':'] b6 with
   | .error e => .error e
   | .ok b7 =>
-  match mapsLoop b7.length b7 with
+  match mapsLoop buf.length b7 with   -- fuel: `b7` is a suffix of `buf`
   | .error e => .error e
   | .ok (maps, b8) =>
   match closing b8 with
